@@ -17,6 +17,7 @@ RULE = ('states: every builder fill state (bits 0..1023 x refs 0..4), reached by
         'exact-fit reads must succeed with the right data; slices from 8 routes. non-trivial = need > 1 bit or refs involved; states = '
         'distinct (fill state) / (slice route, remaining); transitions = store/load calls; traces = transitions whose outcome was compared '
         'with the reference capacity arithmetic')
+RULE += ' Fifth session: width 0 in the range alphabet (value 0 accepted in no bits, any other value refused).'
 LEVEL_TEXT = ('Explicit-state exploration of the builder: all 5120 fill states are constructed with the real Builder and every store operation of '
               'the alphabet is fired in each (accept-iff-fits, grows-by-need), plus BFS over store histories; complete width sweep for range '
               'errors; complete small-remaining-length sweep for over-reads on slices obtained through every route.')
